@@ -1,6 +1,7 @@
 package main
 
 import (
+	"go/ast"
 	"fmt"
 	"go/constant"
 	"go/token"
@@ -206,6 +207,11 @@ func (f *frame) lookupVar0(name string, b *ssa.BasicBlock, phiOverride map[*ssa.
 						return v, true
 					}
 					if _, isConst := in.X.(*ssa.Const); isConst {
+						// x := T{...}: the builder records the variable's zero value at its definition and the
+						// literal separately; the variable's value is the literal's
+						if v, ok := f.defRHS(in, d); ok {
+							return v, true
+						}
 						return f.val(in.X), true
 					}
 				}
@@ -279,6 +285,36 @@ func (f *frame) withState(st *State, fn func() (Val, bool)) (Val, bool) {
 	f.lookupState = st
 	defer func() { f.lookupState = saved }()
 	return fn()
+}
+
+// defRHS: for the DebugRef of a variable's defining identifier in "x := <composite literal>", the value of the literal.
+func (f *frame) defRHS(def *ssa.DebugRef, blk *ssa.BasicBlock) (Val, bool) {
+	id, ok := def.Expr.(*ast.Ident)
+	if !ok || f.fn.Syntax() == nil {
+		return Val{}, false
+	}
+	var rhs ast.Expr
+	ast.Inspect(f.fn.Syntax(), func(n ast.Node) bool {
+		if as, ok := n.(*ast.AssignStmt); ok && len(as.Lhs) == len(as.Rhs) {
+			for i, l := range as.Lhs {
+				if l == ast.Expr(id) {
+					rhs = as.Rhs[i]
+				}
+			}
+		}
+		return rhs == nil
+	})
+	if _, isLit := rhs.(*ast.CompositeLit); !isLit {
+		return Val{}, false
+	}
+	for _, in := range blk.Instrs {
+		if dr, ok := in.(*ssa.DebugRef); ok && dr.Expr == rhs && !dr.IsAddr {
+			if v, ok := f.vals[dr.X]; ok {
+				return v, true
+			}
+		}
+	}
+	return Val{}, false
 }
 
 func identName(d *ssa.DebugRef) string {
@@ -912,36 +948,44 @@ func (c *FnCtx) frameFactMap(guard *Term, fam, srt string, old, nv *Term) {
 
 // wellFormed assumes basic shape facts about a symbolic value.
 func (c *FnCtx) wellFormed(guard *Term, v Val, st *State) {
+	for _, t := range wfTerms(v, c.get(st, "$alloc", SInt)) {
+		c.assume(guard, t)
+	}
+}
+
+// wfTerms: the well-formedness facts of a value read from a heap in which `alloc` objects exist.
+func wfTerms(v Val, alloc *Term) []*Term {
+	var out []*Term
 	ls := leavesOf(v.T)
-	alloc := c.get(st, "$alloc", SInt)
 	for i := 0; i < len(ls); i++ {
 		l := ls[i]
 		switch l.Role {
 		case "obj":
-			c.assume(guard, And(Ge(v.L[i], IntT(0)), Lt(v.L[i], alloc)))
+			out = append(out, And(Ge(v.L[i], IntT(0)), Lt(v.L[i], alloc)))
 			if _, ok := l.T.Underlying().(*types.Slice); ok && i+3 < len(ls) {
 				off, ln, cp := v.L[i+1], v.L[i+2], v.L[i+3]
-				c.assume(guard, And(Ge(off, IntT(0)), Ge(ln, IntT(0)), Ge(cp, ln)))
-				c.assume(guard, Imp(Eq(v.L[i], IntT(0)), And(Eq(ln, IntT(0)), Eq(cp, IntT(0)))))
+				out = append(out, And(Ge(off, IntT(0)), Ge(ln, IntT(0)), Ge(cp, ln)))
+				out = append(out, Imp(Eq(v.L[i], IntT(0)), And(Eq(ln, IntT(0)), Eq(cp, IntT(0)))))
 			}
 			if _, ok := l.T.Underlying().(*types.Pointer); ok && i+1 < len(ls) {
-				c.assume(guard, Imp(Eq(v.L[i], IntT(0)), Eq(v.L[i+1], IntT(0))))
+				out = append(out, Imp(Eq(v.L[i], IntT(0)), Eq(v.L[i+1], IntT(0))))
 			}
 		case "map":
-			c.assume(guard, And(Ge(v.L[i], IntT(0)), Lt(v.L[i], alloc)))
+			out = append(out, And(Ge(v.L[i], IntT(0)), Lt(v.L[i], alloc)))
 		case "tag":
-			c.assume(guard, Ge(v.L[i], IntT(0)))
+			out = append(out, Ge(v.L[i], IntT(0)))
 			if i+2 < len(ls) {
-				c.assume(guard, Imp(Eq(v.L[i], IntT(0)), And(Eq(v.L[i+1], IntT(0)), Eq(v.L[i+2], IntT(0)))))
+				out = append(out, Imp(Eq(v.L[i], IntT(0)), And(Eq(v.L[i+1], IntT(0)), Eq(v.L[i+2], IntT(0)))))
 			}
 		case "":
 			if l.Sort == SInt {
 				if b, ok := l.T.Underlying().(*types.Basic); ok && b.Info()&types.IsUnsigned != 0 {
-					c.assume(guard, Ge(v.L[i], IntT(0)))
+					out = append(out, Ge(v.L[i], IntT(0)))
 				}
 			}
 		}
 	}
+	return out
 }
 
 // useHints instantiates the lemma uses registered for program point `at`.
